@@ -40,7 +40,12 @@ def blocking_case(chk, s, rng, c, prev):
     req, a, exp = c["req"], c["reply"], c["result"]
     doc = ksi.imprint(ALG[req["alg"]], b"c07-%d" % rng.randrange(1 << 30))
     level = req["level"]
+    capped = rng.random() < 0.35
+    if capped:       # the socket takes the request in pieces (short writes): what arrives must still be the one request, whole and in order
+        s.cmd("SENDCAPS " + " ".join(str(rng.choice([1, 2, 7, 16, 33])) for _ in range(rng.randint(1, 6))))
     out = s.cmd(("SIGN %s %d" % (doc.hex(), level)) if req["api"] == "aggregated" else "CREATE %s" % doc.hex())
+    if capped:
+        s.cmd("SENDCAPS")
     sent = [l for l in out if l.startswith("E send")]
     if a["what"] == "-":            # refused locally: nothing may have been sent
         r = [l for l in out if l.startswith("R sign")]
@@ -55,7 +60,14 @@ def blocking_case(chk, s, rng, c, prev):
         chk.violation("no-request", "signing did not send a request / did not wait for the reply: %s" % [x[:100] for x in out], dict(log=s.log[-20:]))
         return prev
     raw = b"".join(bytes.fromhex(l.split("data=")[1]) for l in sent)
-    f = wire.request_fields(raw)
+    try:
+        f = wire.request_fields(raw)
+    except Exception as ex:
+        chk.violation("request:not-a-pdu:%s" % ("short-writes" if capped else "plain"), "the bytes the blocking client wrote are not an aggregation request PDU (%s): %s" % (ex, raw.hex()[:200]), dict(log=s.log[-20:]))
+        s.cmd("PEERCLOSE"); out = s.cmd("GO")
+        while out and out[-1].startswith("Q recv"):
+            s.cmd("PEERCLOSE"); out = s.cmd("GO")
+        return prev
     check_request(chk, f, doc, level, "blocking %s" % req["api"])
     rid = int.from_bytes(f["payload"].get(1, b""), "big")
     reply = wire.sign_reply(a, rng, rid, doc, level, prev)
